@@ -192,3 +192,15 @@ PROPS["C08"] = {
     "level_text": "seeded search over rule-change histories (file reloads through the watcher seam, restarts) between login and later requests",
     "assumptions": COMMON_ASSUMPTIONS + ["allowed_emails differing only in case and allowed_email_domains for addresses with several @ are judged 'either'"],
 }
+
+PROPS["C18"] = {
+    "level": "exploration",
+    "quick_runs": 1600, "quick_budget_s": 150, "thorough_budget_s": 600,
+    "rule": "one run = one world (Secure, HttpOnly, SameSite '' / lax / strict / none, Path, 0-3 nested cookie domains incl. leading dot and with port, cookie name length 1-256 "
+            "and __Secure- prefix, reverse-proxy mode, csrf-per-request, store, session size) x 1-3 request hosts (exact, sub-domain, deeper, sibling, unrelated, with port, upper case, "
+            "suffix look-alike, optionally via X-Forwarded-Host) driven through start, callback, authenticated request, refresh to another size, a request on another host, sign-out "
+            "and five error paths; the M-attrs monitor (which also runs on every response of every other property's runs) checks every Set-Cookie of the proxy's cookie family; every "
+            "deletion is applied to the browser jar and must remove the cookie it names; non-trivial = at least one deletion was judged; distinct = distinct configuration x hosts + event hash",
+    "level_text": "monitor on every response of every run + seeded option/host sweep judged against a browser jar",
+    "assumptions": COMMON_ASSUMPTIONS + ["hosts with a port, and suffix matches that are not on a label boundary, are asserted only where every reading of 'matching the request host' gives the same Domain"],
+}
